@@ -168,6 +168,32 @@ def _unpack_sizes_agree(ctx: Ctx, fn: FuncInfo, call: ast.Call) -> Optional[bool
     return True
 
 
+def _guarded_by_service_test(ctx: Ctx, g: Any, org: Any) -> bool:
+    """the TypeError is raised exactly when a type handed to the codec is a service type: the innermost guard of the raise is an
+    isinstance test against ServiceType (wherever the guard lives: the entry point itself or a helper it calls)"""
+    from ..decide import paths_of
+
+    fn = g.funcs.get(org.func)
+    if fn is None:
+        return False
+    hits = 0
+    for p in paths_of(fn.node):
+        if p.kind != "raise" or p.value is None:
+            continue
+        if norm(p.value)[:30] not in org.text and org.text[:30] not in "raise " + norm(p.value):
+            continue
+        conds = [(c, pol) for c, pol in p.conds if not isinstance(c, tuple)]
+        if not conds:
+            return False
+        c, pol = conds[-1]
+        if isinstance(c, ast.UnaryOp) and isinstance(c.op, ast.Not):
+            c, pol = c.operand, not pol
+        if not (pol and isinstance(c, ast.Call) and dotted(c.func) == "isinstance" and len(c.args) == 2 and (dotted(c.args[1]) or "").split(".")[-1] == "ServiceType"):
+            return False
+        hits += 1
+    return hits > 0
+
+
 def rule_r1(ctx: Ctx) -> None:
     repo = ctx.repo
     ctx.rule("C07.R1", "exceptions escaping deserialize are SerDesError/ValueError subclasses (TypeError only from the explicit ServiceType guards); implicit partial operations in the codec are discharged", min_instances=4)
@@ -201,7 +227,7 @@ def rule_r1(ctx: Ctx) -> None:
             ok = repo.is_subclass(cls, serdes_err)
         elif ef.is_sub(cls, "ext:ValueError"):
             ok = True
-        elif cls == "ext:TypeError" and org.kind == "raise" and org.func.split(".")[-1] in svc_guard_funcs and "Service types" in org.text:
+        elif cls == "ext:TypeError" and org.kind == "raise" and _guarded_by_service_test(ctx, g, org):
             ok = True
         elif cls in ("ext:MemoryError", "ext:RecursionError"):
             ok = True
